@@ -3,11 +3,6 @@ import MgpuProofs.C09Res1
     `free_all_restores_initial`, and the SGPR loop. -/
 namespace C09
 
-/-- shape of a mask: `some length` for a limited mask, `none` for an unlimited one -/
-def Mask.shape : Mask → Option Nat
-  | .lim m => some m.length
-  | .unl _ => none
-
 /-- a limited mask agrees with a list of recorded regions -/
 def MaskOK (m : Mask) (rs : List (Nat × Nat)) : Prop :=
   match m with
@@ -185,10 +180,6 @@ def lRegions (cu : CU) : List (Nat × Nat) :=
 /-- VGPR unit regions on SIMD k -/
 def vRegions (cu : CU) (k : Nat) : List (Nat × Nat) :=
   cu.resident.flatMap fun e => (e.2.2.filter (·.simd = k)).map fun l => (l.voff / 16, units e.2.1.v vGran)
-
-/-- number of resident wavefronts on SIMD k -/
-def residentOn (cu : CU) (k : Nat) : Nat :=
-  (cu.resident.flatMap fun e => e.2.2.filter (·.simd = k)).length
 
 /-- the invariant; `cap` = the `WfPoolSizes` the CU was registered with -/
 structure Inv (cap : List Nat) (cu : CU) : Prop where
